@@ -850,17 +850,26 @@ class Engine:
         # The steps that exist when the phase begins. A step created
         # during the phase first runs in the next one, also when it was
         # created under the path of a step that a previous step of this
-        # phase moved away or deleted.
+        # phase moved away or deleted. A step that a previous step of
+        # this phase has moved still exists: it runs where it is now.
         scheduled = {
             path: self._step_paths.get(path)
             for layer in layers for path in layer}
         for layer in layers:
             deferred_updates: List[Tuple[Defer, Store]] = []
             for path in layer:
-                step = self._step_paths.get(path)
-                if not step or step is not scheduled[path]:
-                    # Step was deleted (or replaced) by a previous step.
+                step = scheduled[path]
+                if step is None:
                     continue
+                if self._step_paths.get(path) is not step:
+                    # Moved (it runs at its new path) or deleted (it
+                    # does not run) by a previous step.
+                    path = next((
+                        new_path
+                        for new_path, other in self._step_paths.items()
+                        if other is step), None)
+                    if path is None:
+                        continue
                 # Timestep shouldn't influence steps.
                 # TODO(jerry): Do something cleaner than having
                 #  generate_paths() add a schema attribute to the Deriver.
